@@ -132,7 +132,7 @@ class ParsedUrl:
         user = f"{self.user}@" if self.user else ""
         port = f":{self.port}" if self.port else ""
         path = "/" + (self.pathname or "").lstrip(":/")
-        return f"{protocol}{user}{self.resource}{port}{path}"
+        return f"{protocol}{user}{self.resource or ''}{port}{path}"
 
     def format(self) -> str:
         return self.url
